@@ -412,8 +412,12 @@ impl Default for ColSpec {
 }
 
 impl ColSpec {
+	/// a column with both `btree_index` and `multitree` set is opened as a btree column by the crate
+	pub fn is_tree(&self) -> bool {
+		self.multitree && !self.btree
+	}
 	pub fn kind(&self) -> Kind {
-		if self.multitree {
+		if self.is_tree() {
 			Kind::Tree
 		} else if self.ref_counted {
 			Kind::Rc
@@ -478,6 +482,9 @@ impl ColSpec {
 		} else {
 			"hash"
 		});
+		if self.btree && self.multitree {
+			s.push_str("+multitree-flag")
+		}
 		if self.uniform {
 			s.push_str("+uniform")
 		}
